@@ -1,9 +1,197 @@
-import SynthVerif.Model.Adsr
-import SynthVerif.Model.Lfo
-import SynthVerif.Model.Quantizer
-import SynthVerif.Model.Midi
-import SynthVerif.Model.Glide
-import SynthVerif.Model.Ribbon
+import SynthVerif.Props.C10
+/-!
+# C11 — LFO phase advances at the requested frequency; reset and set_phase position it
+
+* `reset_zero`: after `reset()` the phase counter is 0.
+* `setPhase_close`: for finite `p ≥ 0`, the phase after `set_phase(p)` is within `5/2 · 2^-24 < 2^-22` of the
+  fractional part of `p`.
+* `setPhase_neg`: a negative (representable) `p` gives exactly the result of `-p`: the phase depends only on
+  `|p|` modulo 1 and lies in [0, 1) (`C10.setPhase_ok`).
+* `tick_advance`: a tick adds the increment modulo 2^24 and nothing else.
+* `increment_bounds`: for `0 ≤ f ≤ fs` the increment `inc` satisfies
+  `x·(1 − 2^-24) − 2^-100 − 1 < inc ≤ x·(1 + 2^-24) + 2^-100`, `x = 2^24·f/fs`: too much by at most one f32 rounding,
+  too little by at most that plus one counter step.
+* `setFrequency_keeps_phase`: a frequency change never moves the phase.
+-/
 namespace C11
-theorem placeholder_to_be_replaced : True := trivial
+open F32
+
+theorem reset_zero (l : Lfo) : l.reset.pa.acc = 0 := by
+  simp only [Lfo.reset, PhaseAcc.reset]
+
+theorem setFrequency_keeps_phase (l : Lfo) (f : F32) : (l.setFrequency f).pa.acc = l.pa.acc := by
+  simp only [Lfo.setFrequency, PhaseAcc.setFrequency]
+
+/-- a tick adds the increment modulo 2^24 (and panics only if the u32 addition overflows) -/
+theorem tick_advance (l l' : Lfo) (h : l.tick = some l') :
+    l'.pa.acc = (l.pa.acc + l.pa.inc) % 2 ^ l.pa.totalBits ∧ l'.pa.inc = l.pa.inc := by
+  simp only [Lfo.tick, PhaseAcc.tick] at h
+  by_cases hov : l.pa.acc + l.pa.inc ≥ 2 ^ 32
+  · rw [if_pos hov] at h; simp at h
+  · rw [if_neg hov] at h
+    simp only [Option.map_some, Option.some.injEq] at h
+    subst h; exact ⟨rfl, rfl⟩
+
+/-- fractional part of a non-negative rational -/
+def frac (a : ℚ) : ℚ := a - ⌊a⌋
+
+/-- **set_phase(p), p ≥ 0 finite**: the phase counter is within 2.5 counts (2.5·2^-24 < 2^-22 of a cycle) of the
+fractional part of p -/
+theorem setPhase_close (l : Lfo) (h : C10.Ok l) (a : ℚ) (na : Bool) (ha : 0 ≤ a) :
+    let acc := (l.setPhase (.fin a na)).pa.acc
+    (acc : ℚ) ≤ 2 ^ 24 * frac a + 1 / 2 ∧ 2 ^ 24 * frac a - 5 / 2 < acc := by
+  have hlt : lt (F32.fin a na) zero = false := by
+    simp only [lt, zero]; simpa using ha
+  show ((l.pa.setPhase (.fin a na)).acc : ℚ) ≤ _ ∧ _ < ((l.pa.setPhase (.fin a na)).acc : ℚ)
+  simp only [PhaseAcc.setPhase, PhaseAcc.reset, PhaseAcc.mask, h.tb, hlt, Bool.false_eq_true, ↓reduceIte]
+  rw [C10.mask24]
+  have hone : one = .fin 1 false := rfl
+  rw [hone]
+  simp only [fmod]
+  have h1 : ((1:ℚ) == 0) = false := by decide
+  simp only [h1, Bool.false_eq_true, ↓reduceIte]
+  have htr : (truncInt (a / 1) : ℚ) = ⌊a⌋ := by
+    have : ¬ a < 0 := not_lt.mpr ha
+    simp only [div_one, truncInt, this, ↓reduceIte]; rfl
+  have hr : a - (truncInt (a / 1) : ℚ) * 1 = frac a := by rw [htr]; simp [frac]
+  have f0 : 0 ≤ frac a := by unfold frac; linarith [Int.floor_le a]
+  have f1 : frac a < 1 := by unfold frac; linarith [Int.lt_floor_add_one a]
+  rw [hr]
+  -- the product M·r and its rounding
+  set x : ℚ := 16777215 * frac a with hx
+  have hx0 : 0 ≤ x := by positivity
+  have hxM : x ≤ 16777215 := by rw [hx]; nlinarith
+  have herr : |rnd x - x| ≤ 1 / 2 := by
+    have := rnd_err (x := x) (k := 24) (by norm_num) (by rw [abs_of_nonneg hx0]; exact lt_of_le_of_lt hxM (by norm_num))
+    norm_num at this; exact this
+  have hrn0 : 0 ≤ rnd x := rnd_nonneg hx0
+  have hrnM : rnd x ≤ 16777215 := rnd_le_of_le hxM (by simpa using rep_int (n := 16777215) (by norm_num))
+  have hov : |rnd x| < 2 ^ (128:ℤ) := by
+    rw [abs_of_nonneg hrn0]; exact lt_of_le_of_lt hrnM (by norm_num)
+  -- value of toU32 of the rounded product is the floor of rnd x
+  have hfl : ∀ (y : F32), y = .fin (frac a) false ∨ (frac a = 0 ∧ ∃ s, y = .fin 0 s) →
+      ((toU32 (mul (.fin 16777215 false) y) : ℕ) : ℚ) = ⌊rnd x⌋ := by
+    intro y hy
+    have hy' : ∃ s, mul (.fin 16777215 false) y = round x s := by
+      rcases hy with rfl | ⟨h0, s, rfl⟩
+      · exact ⟨_, by rw [mul_fin]⟩
+      · exact ⟨_, by rw [mul_fin, hx, h0]⟩
+    obtain ⟨s, hs⟩ := hy'
+    rw [hs, round_def, qabs_eq, pow2_eq, if_neg (not_le.mpr hov)]
+    have hfloor_nonneg : 0 ≤ ⌊rnd x⌋ := Int.floor_nonneg.mpr hrn0
+    have hfloor_lt : ⌊rnd x⌋ < 2 ^ 32 := by
+      have : ⌊rnd x⌋ ≤ ⌊(16777215:ℚ)⌋ := Int.floor_le_floor hrnM
+      have e : ⌊(16777215:ℚ)⌋ = 16777215 := by norm_num
+      rw [e] at this; omega
+    split
+    · rename_i hz
+      have hz' : rnd x = 0 := by simpa using hz
+      have e0 : (Rat.floor 0) = 0 := by decide
+      simp [toU32, hz', e0]
+    · have hneg : ¬ rnd x < 0 := not_lt.mpr hrn0
+      simp only [toU32, hneg, ↓reduceIte]
+      have e : (rnd x).floor = ⌊rnd x⌋ := rfl
+      rw [e]
+      have hnat : (⌊rnd x⌋.toNat : ℤ) = ⌊rnd x⌋ := Int.toNat_of_nonneg hfloor_nonneg
+      have hlt : ¬ (⌊rnd x⌋.toNat ≥ 2 ^ 32) := by omega
+      simp only [hlt, ↓reduceIte]
+      exact_mod_cast hnat
+  have hval : ((toU32 (mul (.fin 16777215 false) (if (frac a == 0) = true then F32.fin 0 ((F32.fin a na).sign) else F32.fin (frac a) false)) : ℕ) : ℚ) = ⌊rnd x⌋ := by
+    apply hfl
+    by_cases hz : frac a = 0
+    · right; refine ⟨hz, ?_⟩; simp [hz]
+    · left; simp [hz]
+  rw [hval]
+  have g1 := Int.floor_le (rnd x)
+  have g2 := Int.lt_floor_add_one (rnd x)
+  have e1 := abs_le.mp herr
+  have hxe : x = 2 ^ 24 * frac a - frac a := by rw [hx]; norm_num; ring
+  constructor
+  · linarith [e1.2]
+  · linarith [e1.1]
+
+/-- **negative p**: the result is exactly that of `-p` — it depends only on `|p|` (modulo 1) -/
+theorem setPhase_neg (l : Lfo) (q : ℚ) (nq : Bool) (hq : q < 0) (hrep : Rep q) (hbig : |q| ≤ 2 ^ (127:ℤ)) :
+    l.setPhase (.fin q nq) = l.setPhase (.fin (-q) false) := by
+  have h1 : lt (F32.fin q nq) zero = true := by simp only [lt, zero]; simpa using hq
+  have h2 : lt (F32.fin (-q) false) zero = false := by
+    simp only [lt, zero]; simpa using le_of_lt hq
+  have hflip : mul (F32.fin q nq) (.fin (-1) false) = .fin (-q) false := by
+    rw [mul_fin, round_def]
+    have e : q * -1 = -q := by ring
+    rw [e, rnd_rep (rep_neg hrep), qabs_eq, pow2_eq]
+    have hov : ¬ ((2:ℚ) ^ (128:ℤ) ≤ |-q|) := by
+      rw [abs_neg]; exact not_le.mpr (lt_of_le_of_lt hbig (by norm_num))
+    have hne : ((-q) == 0) = false := by
+      have : -q ≠ 0 := by linarith
+      simpa using this
+    rw [if_neg hov, hne]; simp
+  simp only [Lfo.setPhase, PhaseAcc.setPhase, h1, h2, hflip, ↓reduceIte, Bool.false_eq_true]
+
+/-- **increment bounds**: for a representable frequency `0 ≤ φ ≤ σ` (σ the sample rate), with `x = 2^24·φ/σ` the
+ideal number of counts per tick, the stored increment is `⌊rnd x⌋`; it exceeds `x` by at most one f32 rounding and
+falls short by at most that plus one count -/
+theorem increment_bounds (l : Lfo) (h : C10.Ok l) (φ σ : ℚ) (nf ns : Bool) (hsr : l.pa.sr = .fin σ ns)
+    (hφ0 : 0 ≤ φ) (hφσ : φ ≤ σ) (hσ : 0 < σ) (hσ' : σ ≤ 2 ^ (100:ℤ)) (hrep : Rep φ) :
+    let inc : ℚ := ((l.setFrequency (.fin φ nf)).pa.inc : ℕ)
+    let x : ℚ := 2 ^ 24 * φ / σ
+    inc ≤ x * (1 + 2 ^ (-24:ℤ)) + 2 ^ (-150:ℤ) ∧ x * (1 - 2 ^ (-24:ℤ)) - 2 ^ (-150:ℤ) - 1 < inc := by
+  show (((l.pa.setFrequency (.fin φ nf)).inc : ℕ) : ℚ) ≤ _ ∧ _ < (((l.pa.setFrequency (.fin φ nf)).inc : ℕ) : ℚ)
+  simp only [PhaseAcc.setFrequency, h.tb, hsr, PhaseAcc.pow2_24]
+  -- 2^24 · φ is exact
+  have hprod : Rep (16777216 * φ) := by
+    have := rep_mul_pow2 hrep 24
+    have e : φ * 2 ^ 24 = 16777216 * φ := by norm_num; ring
+    rwa [e] at this
+  have hσ100 : σ ≤ 2 ^ 100 := by simpa using hσ'
+  have hpb : |16777216 * φ| ≤ 2 ^ (127:ℤ) := by
+    rw [abs_of_nonneg (by positivity)]
+    calc 16777216 * φ ≤ 16777216 * 2 ^ 100 := by nlinarith
+      _ ≤ 2 ^ (127:ℤ) := by norm_num
+  have hm : mul (F32.fin 16777216 false) (F32.fin φ nf) = round (16777216 * φ) ((F32.fin (16777216:ℚ) false).sign != (F32.fin φ nf).sign) := mul_fin _ _ _ _
+  obtain ⟨m1, m2⟩ := round_fin (x := 16777216 * φ) ((F32.fin (16777216:ℚ) false).sign != (F32.fin φ nf).sign) (no_overflow hpb)
+  rw [rnd_rep hprod] at m2
+  rw [hm]
+  set P := round (16777216 * φ) ((F32.fin (16777216:ℚ) false).sign != (F32.fin φ nf).sign) with hP
+  -- the quotient
+  set y : ℚ := 16777216 * φ / σ with hy
+  have hy0 : 0 ≤ y := by positivity
+  have hy1 : y ≤ 16777216 := by
+    rw [hy, div_le_iff₀ hσ]; nlinarith
+  have hdiv := val_div (x := P) (y := .fin σ ns) m1 rfl (by simpa using ne_of_gt hσ)
+    (by rw [m2, val_fin, abs_of_nonneg hy0]; exact le_trans hy1 (by norm_num))
+  rw [m2, val_fin] at hdiv
+  obtain ⟨d1, d2⟩ := hdiv
+  have hr0 : 0 ≤ rnd y := rnd_nonneg hy0
+  have hrep24 : Rep (16777216:ℚ) := by
+    have := rep_pow2 (k := 24) (by norm_num); norm_num at this; exact this
+  have hr1 : rnd y ≤ 16777216 := rnd_le_of_le hy1 hrep24
+  have herr := abs_le.mp (rnd_err_gen y)
+  rw [abs_of_nonneg hy0] at herr
+  -- the truncating cast
+  cases hD : div P (.fin σ ns) with
+  | nan => rw [hD] at d1; simp at d1
+  | inf s => rw [hD] at d1; simp at d1
+  | fin r nz =>
+    rw [hD, val_fin] at d2
+    have hfl := toU32_floor r nz (by rw [d2]; exact hr0) (by rw [d2]; exact lt_of_le_of_lt hr1 (by norm_num))
+    have hq : (((toU32 (F32.fin r nz) : ℕ) : ℤ) : ℚ) = (⌊r⌋ : ℚ) := by exact_mod_cast hfl
+    have hq' : ((toU32 (F32.fin r nz) : ℕ) : ℚ) = (⌊r⌋ : ℚ) := by exact_mod_cast hq
+    rw [hq', d2]
+    have g1 := Int.floor_le (rnd y)
+    have g2 := Int.lt_floor_add_one (rnd y)
+    have hxy : (2:ℚ) ^ 24 * φ / σ = y := by rw [hy]; norm_num
+    rw [hxy]
+    obtain ⟨e1, e2⟩ := herr
+    generalize (2:ℚ) ^ (-24:ℤ) = ε at *
+    generalize (2:ℚ) ^ (-150:ℤ) = δ at *
+    constructor
+    · have : y * (1 + ε) = y + ε * y := by ring
+      rw [this]; linarith
+    · have : y * (1 - ε) = y - ε * y := by ring
+      rw [this]; linarith
+
+/-- non-vacuity: 1 Hz at 1 kHz is 16777 counts per tick (2^24/1000 = 16777.2) -/
+example : ((Lfo.new (ofBits 0x447a0000)).setFrequency one).pa.inc = 16777 := by decide +kernel
+
 end C11
